@@ -127,6 +127,9 @@ func clientRequests(u *Universe, pkg string, prefix string) []requestSite {
 			var in *ssa.Alloc
 			if len(cc.Args) >= 2 {
 				in = allocOf(cc.Args[1])
+				if in == nil {
+					in = helperBuiltInput(cc.Args[1], f)
+				}
 			}
 			out = append(out, requestSite{f, i, in, cc.Method.Name()})
 		})
@@ -717,9 +720,23 @@ func ruleC13ConsistentReads(c *Ctx) {
 
 // keyConditionOnID: the function builds expression.Key(const "Id").Equal(expression.Value(<keyID param>)).
 func keyConditionOnID(f *ssa.Function) bool {
+	return keyConditionOnIDIn(f, 0)
+}
+
+func keyConditionOnIDIn(f *ssa.Function, depth int) bool {
 	ok := false
 	allInstrs(f, func(i ssa.Instruction) {
 		g := staticCallee(i)
+		// the expression may be built by a helper of the package that receives the id
+		if g != nil && g.Pkg == f.Pkg && g.Blocks != nil && depth < 2 && g != f {
+			if cc := callOf(i); cc != nil {
+				for _, a := range cc.Args {
+					if p, isP := strip(a).(*ssa.Parameter); isP && p.Name() == "keyID" && keyConditionOnIDIn(g, depth+1) {
+						ok = true
+					}
+				}
+			}
+		}
 		if g == nil || g.Name() != "Equal" || g.Pkg == nil || !strings.HasSuffix(g.Pkg.Pkg.Path(), "/expression") {
 			return
 		}
@@ -1045,4 +1062,39 @@ func derivesFromEnvelopes(v ssa.Value, depth int) bool {
 		return len(x.Edges) > 0
 	}
 	return false
+}
+
+// helperBuiltInput: the request input is the (only) struct literal a same-package helper returns, directly or as the
+// first result of a (input, error) pair.
+func helperBuiltInput(v ssa.Value, f *ssa.Function) *ssa.Alloc {
+	v = resolve(v)
+	idx := 0
+	if ex, ok := v.(*ssa.Extract); ok {
+		idx = ex.Index
+		v = ex.Tuple
+	}
+	cv, ok := v.(*ssa.Call)
+	if !ok {
+		return nil
+	}
+	h := staticCallee(cv)
+	if h == nil || h.Blocks == nil || h.Pkg != f.Pkg {
+		return nil
+	}
+	var found *ssa.Alloc
+	for _, r := range returnsOf(h) {
+		if idx >= len(r.Results) {
+			return nil
+		}
+		rv := returnedValue(r, idx)
+		if isNilValue(rv) {
+			continue
+		}
+		a := allocOf(rv)
+		if a == nil || (found != nil && found != a) {
+			return nil
+		}
+		found = a
+	}
+	return found
 }
